@@ -653,6 +653,7 @@ fn op_rcu(ctx: Ctx, c: u8, spec: RcuSpec, h: u8) {
         let mut last_out: (u32, usize) = (0, 0);
         let mut seen: Vec<(u32, usize, u64)> = Vec::new();
         let mut produced: Vec<u32> = Vec::new();
+        let mut last_fresh = true;
         let res = guarded("rcu", || {
             cv.rcu(|cur: &T| {
                 attempt += 1;
@@ -683,10 +684,18 @@ fn op_rcu(ctx: Ctx, c: u8, spec: RcuSpec, h: u8) {
                     std::panic::resume_unwind(Box::new(UserPanic("rcu closure")));
                 }
                 let _ = in_val;
-                let new = T::fresh(next_payload());
+                let new = match spec.out {
+                    1 => T::null(),
+                    2 => Some(cur.clone()),
+                    _ => None,
+                };
+                last_fresh = new.is_none();
+                let new = new.unwrap_or_else(|| T::fresh(next_payload()));
                 last_out = (new.peek_uid(), new.addr());
                 note_stored(c, last_out.1);
-                produced.push(last_out.0);
+                if last_fresh {
+                    produced.push(last_out.0);
+                }
                 new
             })
         });
@@ -738,7 +747,9 @@ fn op_rcu(ctx: Ctx, c: u8, spec: RcuSpec, h: u8) {
                 };
                 rec_end(ctx, r, c, CallKind::Rcu, last_out, 0, ret, true);
                 // Discarded attempts: must be dead by the next quiescent point and never visible.
-                produced.pop();
+                if last_fresh {
+                    produced.pop();
+                }
                 w(|w| w.discarded.extend(produced.iter().copied()));
                 w(|w| w.handles[hslot(ctx, h)] = Some(hv));
             }
